@@ -23,8 +23,7 @@ open RgVerif RgVerif.Matcher RgVerif.Replace RgVerif.Json
 /-- `matcher.find_at(haystack, pos)` for every haystack. -/
 abbrev Oracle := Bytes → Nat → Option Span
 
-/-- `crate::MAX_LOOK_AHEAD` -/
-def maxLookAhead : Nat := 128
+-- `crate::MAX_LOOK_AHEAD` is `Replace.maxLookAhead` (Model/Replace.lean, re-checked against the source on every run)
 
 /-! ### `DecimalFormatter` -/
 
